@@ -16,13 +16,15 @@ pub struct Draw {
     pub value: Vec<u8>,
     /// value the library's own generator produced (before any override)
     pub natural: Vec<u8>,
+    /// sign of `value` (integers only; `value` holds the magnitude)
+    pub neg: bool,
 }
 
 #[derive(Default)]
 struct Tape {
     active: bool,
     log: Vec<Draw>,
-    inject: VecDeque<Vec<u8>>,
+    inject: VecDeque<(bool, Vec<u8>)>,
 }
 
 thread_local! {
@@ -31,6 +33,11 @@ thread_local! {
 
 /// Start recording on this thread; `inject` values (possibly none) override the next draws in order.
 pub fn start(inject: Vec<Vec<u8>>) {
+    start_signed(inject.into_iter().map(|v| (false, v)).collect());
+}
+
+/// Like [`start`], with a sign for every injected integer (`true` = negative).
+pub fn start_signed(inject: Vec<(bool, Vec<u8>)>) {
     TAPE.with(|t| {
         let mut t = t.borrow_mut();
         t.active = true;
@@ -54,15 +61,15 @@ pub fn active() -> bool {
     TAPE.with(|t| t.borrow().active)
 }
 
-fn draw(kind: &'static str, natural: Vec<u8>) -> Option<Vec<u8>> {
+fn draw(kind: &'static str, natural: Vec<u8>, natural_neg: bool) -> Option<(bool, Vec<u8>)> {
     TAPE.with(|t| {
         let mut t = t.borrow_mut();
         if !t.active {
             return None;
         }
         let injected = t.inject.pop_front();
-        let value = injected.clone().unwrap_or_else(|| natural.clone());
-        t.log.push(Draw { kind, value, natural });
+        let (neg, value) = injected.clone().unwrap_or_else(|| (natural_neg, natural.clone()));
+        t.log.push(Draw { kind, value, natural, neg });
         injected
     })
 }
@@ -72,7 +79,7 @@ fn draw(kind: &'static str, natural: Vec<u8>) -> Option<Vec<u8>> {
 pub fn on_scalars(v: &mut Vec<bls12_381_plus::Scalar>) {
     use bls12_381_plus::Scalar;
     for s in v.iter_mut() {
-        if let Some(bytes) = draw("scalar", s.to_be_bytes().to_vec()) {
+        if let Some((_, bytes)) = draw("scalar", s.to_be_bytes().to_vec(), false) {
             if let Ok(arr) = <[u8; 32]>::try_from(bytes.as_slice()) {
                 if let Some(x) = Option::<Scalar>::from(Scalar::from_be_bytes(&arr)) {
                     *s = x;
@@ -86,8 +93,11 @@ pub fn on_scalars(v: &mut Vec<bls12_381_plus::Scalar>) {
 /// Called by the CL03 random helpers with the value they are about to return.
 pub fn on_integer(kind: &'static str, i: &mut rug::Integer) {
     use rug::integer::Order;
-    if let Some(bytes) = draw(kind, i.to_digits::<u8>(Order::MsfBe)) {
+    if let Some((neg, bytes)) = draw(kind, i.to_digits::<u8>(Order::MsfBe), *i < 0) {
         *i = rug::Integer::from_digits(&bytes, Order::MsfBe);
+        if neg {
+            *i = -i.clone();
+        }
     }
 }
 
